@@ -295,7 +295,7 @@ func init() {
 	}
 	c13Alias := func(c *Ctx) { c13AliasMoves(c, nil) }
 	addCheck(&Check{ID: "C13", Level: "exploration",
-		Rule:   "complete product: first Route entry (16 shapes incl. a port written with a leading zero: own by address/alias/with and without port, near misses, other listeners, decorated own entries, an unresolvable host with the listener's port) x remaining list of 0-3 (thorough 0-4) entries over an 8-entry alphabet (display names, URI parameters valued/valueless/lr in any position, header parameters, %-escapes) x every layout (all compositions into header lines, with/without blank after commas) x keep-next-hop x arrival {UDP, TCP, UDP on a listens entry without address, UDP on a listens entry with a backend-local-address}; plus a first entry whose DNS-only host name moves between the listener, another host and nothing (27 histories of three requests x gaps of 0 / 5 / 40 s, differential against a proxy started in that state); the emitted Route list is decoded by the independent reader and compared component-wise with the reference; second pass: all cases of one (keep, first entry) class fed into ONE long-lived world; non-trivial = request carries a Route",
+		Rule:   "complete product: first Route entry (16 shapes incl. a port written with a leading zero: own by address/alias/with and without port, near misses, other listeners, decorated own entries, an unresolvable host with the listener's port) x remaining list of 0-3 (thorough 0-4) entries over an 8-entry alphabet (display names, URI parameters valued/valueless/lr in any position, header parameters, %-escapes) x every layout (all compositions into header lines, with/without blank after commas) x keep-next-hop x arrival {UDP, TCP, UDP on a listens entry without address, UDP on a listens entry with a backend-local-address}; plus a first entry whose DNS-only host name moves between the listener, another host and nothing (27 histories of three judged requests, further requests every 5 / 12 / 25 s in between, each judged more than a minute after the last change; differential against a proxy started in that state); the emitted Route list is decoded by the independent reader and compared component-wise with the reference; second pass: all cases of one (keep, first entry) class fed into ONE long-lived world; non-trivial = request carries a Route",
 		Assume: []string{"two services, four listeners (one bound to every local address), host table with aliases; only the first emission is compared (exactly-one is C03)"},
 		Run: func(c *Ctx) {
 			c13Spec.Run(c)
@@ -324,7 +324,9 @@ func init() {
 //
 // The first Route entry names the listener by a host name that only the DNS knows. Name resolution
 // changes between requests (the name designates the listener / another host / nothing); each
-// request must be handled according to what the name designates WHEN IT ARRIVES. Differential
+// request must be handled according to what the name designates when it arrives - judged only
+// once the change is more than a minute old while requests kept coming (a bounded resolver cache
+// is not demanded away; a verdict that traffic renews for ever is). Differential
 // oracle: the observation in the long-lived world equals the observation of the same request in
 // a fresh world started with the DNS in that state.
 
@@ -382,7 +384,7 @@ func c13AliasMoves(c *Ctx, only *c13AliasCase) {
 		if ref["own"] == ref["foreign"] || ref["own"] == ref["gone"] {
 			c.Res.Notes = append(c.Res.Notes, "alias scenario vacuous: the three DNS states are not told apart: "+fmt.Sprint(ref))
 		}
-		for _, gap := range []int{0, 5, 40} {
+		for _, gap := range []int{5, 12, 25} {
 			for a := 0; a < 3; a++ {
 				for b := 0; b < 3; b++ {
 					for d := 0; d < 3; d++ {
@@ -399,9 +401,16 @@ func c13AliasMoves(c *Ctx, only *c13AliasCase) {
 						preStart = nil
 						for i, st := range cs.States {
 							c13AliasSet(st)
-							if i > 0 && gap > 0 {
-								w.S.W.Advance(int64(gap) * 1e9)
-								w.S.Run()
+							if i > 0 {
+								// A resolver view may lag behind the DNS for a bounded time (a cache with a time to live is
+								// ordinary practice and the statement does not rule it out): requests keep arriving every
+								// `gap` seconds - unjudged - until more than a minute has passed since the change; only then
+								// is a request judged. A verdict that traffic keeps alive for ever is still stale by then.
+								for k := 0; k*gap <= 60; k++ {
+									w.S.W.Advance(int64(gap) * 1e9)
+									w.S.Run()
+									c13AliasObs(w, 100*(i+1)+k)
+								}
 							}
 							got := c13AliasObs(w, i+1)
 							c.Res.Evaluations++
@@ -409,7 +418,7 @@ func c13AliasMoves(c *Ctx, only *c13AliasCase) {
 							c.Res.Nontrivial++
 							want := strings.ReplaceAll(ref[st], "am-0", fmt.Sprintf("am-%d", i+1))
 							if got != want {
-								c.Violate("alias-moved|"+strings.Join(cs.States[:i+1], ">"), "own-entry-decision-is-stale", fmt.Sprintf("the first Route entry names the listener's port on the host name %s; name resolution history %v with %d s between requests (keep-next-hop-route=%q): request %d, sent while the name designates %q, gave %s; a proxy started in that state gives %s",
+								c.Violate("alias-moved|"+strings.Join(cs.States[:i+1], ">"), "own-entry-decision-is-stale", fmt.Sprintf("the first Route entry names the listener's port on the host name %s; name resolution history %v, requests every %d s, each judged request more than a minute after the last change (keep-next-hop-route=%q): request %d, sent while the name designates %q, gave %s; a proxy started in that state gives %s",
 									c13AliasName, cs.States[:i+1], gap, keep, i+1, st, got, want), cs)
 								break
 							}
